@@ -736,7 +736,7 @@ pub fn run(ctx: Ctx) -> ! {
     let plan: Vec<(&str, usize, f64)> = if ctx.quick() {
         vec![("full-div2", 3, 60.0), ("full-div18", 3, 60.0), ("core-div2", 4, 60.0)]
     } else {
-        vec![("full-div2", 4, 900.0), ("full-div18", 4, 900.0), ("core-div2", 5, 900.0)]
+        vec![("full-div2", 4, 900.0), ("full-div18", 3, 300.0), ("core-div2", 5, 900.0)]
     };
     let mut cov = Map::new();
     let (mut executed, mut nontrivial, mut capped) = (0, 0, false);
@@ -744,7 +744,7 @@ pub fn run(ctx: Ctx) -> ! {
     for (i, (tag, len, cap)) in plan.into_iter().enumerate() {
         let (d, a) = variant(tag);
         let spec = Spec::new(d, a);
-        let st = explore(&ctx, &spec, i, tag, len, ctx.elapsed_s() + cap, &mut cov);
+        let st = explore(&ctx, &spec, i, tag, len, ctx.elapsed_s() + cap * cap_scale(), &mut cov);
         executed += st.executed;
         nontrivial += st.nontrivial;
         capped |= st.capped;
